@@ -58,8 +58,15 @@ static std::vector<Input> makePool(uint64_t seed, int64_t index)
             go.imports = false;
             go.mathProbability = 0.8;
             auto ir = generateModel(rng, go);
-            in.text = writeCellml2(ir, rng);
-            in.label = "generated-valid";
+            if (i == 1 && rng.chance(0.5)) {
+                // a CellML 1.0/1.1 rendering: a parser instance that has read it must read 2.0 documents as before
+                std::string version = rng.chance(0.5) ? "1.0" : "1.1";
+                in.text = writeCellml1x(ir, version, rng);
+                in.label = "generated-valid-" + version;
+            } else {
+                in.text = writeCellml2(ir, rng);
+                in.label = "generated-valid";
+            }
         } else if (i == 2) {
             GenOptions go;
             auto ir = generateModel(rng, go);
@@ -224,12 +231,15 @@ static std::string runOp(char op, const Input &in, Services &sv, bool reuse, std
         bool ok = imp->resolveImports(m, in.baseDir.empty() ? "/nonexistent/" : in.baseDir + "/");
         monitorLogger(*imp, "Importer::resolveImports");
         canon = std::string("I:resolve=") + (ok ? "1" : "0") + "\nissues:\n" + issuesText(*imp);
-        std::string afterResolve = dumpModel(m);
+        // (deep: the models behind the import sources, i.e. the importer's library, are part of what must not change)
+        DumpOptions deep;
+        deep.importedModels = true;
+        std::string afterResolve = dumpModel(m, deep);
         std::string afterResolveRaw = rawMath(m);
         auto flat = imp->flattenModel(m);
         monitorLogger(*imp, "Importer::flattenModel");
-        if (dumpModel(m) != afterResolve || rawMath(m) != afterResolveRaw) {
-            mutations.push_back("Importer::flattenModel: " + firstDiff(afterResolve, dumpModel(m)));
+        if (dumpModel(m, deep) != afterResolve || rawMath(m) != afterResolveRaw) {
+            mutations.push_back("Importer::flattenModel: " + firstDiff(afterResolve, dumpModel(m, deep)));
         }
         canon += std::string("flatten=") + (flat != nullptr ? "model" : "null") + "\nissues:\n" + issuesText(*imp) + dumpModel(flat);
         raw = flat != nullptr ? rawMath(flat) : "";
